@@ -83,6 +83,11 @@ def cases():
     for nm, text, v in (("exit7", "proc main() is 0(7)", 7), ("write-exit9", "proc main() is { 1('a', 0); 0(9) }", 9), ("call-exit5", "func f(val n) is return n + 2 proc main() is 0(f(3))", 5)):
         for n in range(1, 70):
             out.append(dict(kind="limit", src=nm, text=text, value=v, limit=n, stdin=b""))
+    # large images: the status is the program's exit value whatever the size of the image (sizes around 200000 bytes = 50000 words, and up to the memory size)
+    for words in (1000, 49990, 50000, 50001, 52008, 120000, 199000):
+        out.append(dict(kind="large-asm", src="asm+%dwords" % words, words=words, value=7, stdin=b""))
+    for stmts in (1000, 30000, 50000):
+        out.append(dict(kind="large-x", src="x+%dstatements" % stmts, stmts=stmts, value=42, stdin=b""))
     return out
 
 
@@ -188,6 +193,29 @@ def exec_case(i, c):
                     v.append(("xrun-status", "xrun status %s, xcmp+hexsim status %s" % (rc2, rc1)))
                 if so1 != so2:
                     v.append(("xrun-output", "xrun stdout %r, xcmp+hexsim stdout %r" % (so2[:60], so1[:60])))
+        elif c["kind"] == "large-asm":
+            open(os.path.join(d, "p.S"), "w").write("BR start\nDATA 199990\nstart\nLDAC 7\nLDBM 1\nSTAI 2\nLDAC 0\nOPR SVC\n" + "DATA 0\n" * c["words"])
+            rc, so, se = run([T["hexasm"], "p.S", "-o", "p.bin"], d)
+            if rc != 0:
+                v.append(("accepted-nonzero-status", "hexasm failed on a %d-word image: %s" % (c["words"], se[:200])))
+            else:
+                rc1, so1, se1 = run([T["hexsim"], "p.bin"], d, stdin=b"")
+                info = {"hexsim": rc1, "image_bytes": os.path.getsize(os.path.join(d, "p.bin"))}
+                if rc1 != c["value"]:
+                    v.append(("hexsim-status-large-image", "hexsim exit status %s for a %d-byte image that exits with %d (%s)" % (rc1, info["image_bytes"], c["value"], se1[:80])))
+        elif c["kind"] == "large-x":
+            open(os.path.join(d, "p.x"), "w").write("var g;\nproc filler() is { " + "g := g + 1; " * c["stmts"] + "g := 0 }\nproc main() is { g := 41; 0(g + 1) }\n")
+            rc, so, se = run([T["xcmp"], "p.x", "-o", "p.bin"], d)
+            if rc != 0:
+                v.append(("accepted-nonzero-status", "xcmp failed on %d statements: %s" % (c["stmts"], se[:200])))
+            else:
+                rc1, so1, se1 = run([T["hexsim"], "p.bin"], d, stdin=b"")
+                rc2, so2, se2 = run([T["xrun"], "p.x"], d, stdin=b"")
+                info = {"hexsim": rc1, "xrun": rc2, "image_bytes": os.path.getsize(os.path.join(d, "p.bin"))}
+                if rc1 != c["value"]:
+                    v.append(("hexsim-status-large-image", "hexsim exit status %s for a %d-byte image that exits with %d (%s)" % (rc1, info["image_bytes"], c["value"], se1[:80])))
+                if rc2 != c["value"]:
+                    v.append(("xrun-status-large-image", "xrun exit status %s for a program of %d statements that exits with %d (%s)" % (rc2, c["stmts"], c["value"], se2[:80])))
         elif c["kind"] == "limit":
             open(os.path.join(d, "p.x"), "w").write(c["text"])
             rc, so, se = run([T["xcmp"], "p.x", "-o", "p.bin"], d)
@@ -254,7 +282,7 @@ def main():
     n = len(cs)
     return rep.finish(states=n, transitions=n, validated=n, evaluations=n, nontrivial=n,
                       rule="full product tool x source (3 accepted + one per rejection class + missing file) x {no option, -o, --output} x {option before, after the source} x {target absent, present}, "
-                           "listing-only modes, exit values {0,1,7,255,256,257,-1,-255,65539} x {no input, input}, xrun vs xcmp+hexsim; every combination is a distinct invocation",
+                           "listing-only modes, exit values {0,1,7,255,256,257,-1,-255,65539} x {no input, input}, xrun vs xcmp+hexsim (inputs with bytes >= 0x80), every --max-cycles 1..69 around three runs, images of 1000..199000 words and X programs of 1000..50000 statements whose status must be the exit value; every combination is a distinct invocation",
                       bounds={"cases": n}, assumptions=["the executables are those CMake builds from the working tree (RelWithDebInfo)", "status of a killed or hung tool counts as abnormal termination"],
                       trusted=["python3 subprocess", "cmake/ninja build of /repo"])
 
